@@ -54,7 +54,8 @@ def random_cases(rng, n):
                 if o["k"] != "append":
                     o["as_int"] = True
             cont = rng.choice(["int", "int32", "list"])
-        out.append({"fn": "smooth", "x": [R(v) for v in xs], "y": [R(v) for v in ys], "s_f": s, "pre": pre, "container": cont,
+        far = {"xoff": [1, rng.choice([17, 20])]} if cont == "array" and rng.random() < 0.15 else {}
+        out.append({"fn": "smooth", **far, "x": [R(v) for v in xs], "y": [R(v) for v in ys], "s_f": s, "pre": pre, "container": cont,
                     # (an appended sample breaks affinity; scale / shift / normalise keep it)
                     "identity_expected": bool(s == 0.0 or (affine and not any(o["k"] == "append" for o in pre))), "affine": affine})
     return out
